@@ -14,6 +14,7 @@ Proof.
   - intros H. exists a. split; auto. apply N.eqb_refl.
 Qed.
 
+Definition dpayload (d : digest) : list N := match d with DBlk _ _ pl _ => pl | _ => [] end.
 Definition avail (s : State) (b : Block) : Prop := incl (b_payload b) (s_batches s).
 
 Record AvInv (s : State) : Prop := {
@@ -21,7 +22,10 @@ Record AvInv (s : State) : Prop := {
   av_sync : forall b, In b (s_sync_pending s) -> avail s b;
   av_store : forall d b, In (d, b) (s_store s) -> avail s b;
   av_pw : forall m b, In (m, b) (s_pw_pending s) -> forall d, In d (b_payload b) -> In d (s_batches s) \/ In d m;
-  av_buf : incl (s_buffer s) (s_batches s)
+  av_buf : incl (s_buffer s) (s_batches s);
+  (* every vote this node ever signed (ghost history) is for a block whose payload is stored: a block digest
+     term carries its payload, so this speaks about exactly the batches of the voted block *)
+  av_hist : forall d q j, In (HVote d q j) (s_hist s) -> incl (dpayload d) (s_batches s)
 }.
 
 (* what a computation may do: keep the batches (or grow them), keep the invariant, and commit only available blocks *)
@@ -65,12 +69,13 @@ Qed.
 (* updates that do not touch the six fields the invariant reads *)
 Definition untouched (s s' : State) : Prop :=
   s_loopback s' = s_loopback s /\ s_sync_pending s' = s_sync_pending s /\ s_store s' = s_store s /\
-  s_pw_pending s' = s_pw_pending s /\ s_buffer s' = s_buffer s /\ s_batches s' = s_batches s.
+  s_pw_pending s' = s_pw_pending s /\ s_buffer s' = s_buffer s /\ s_batches s' = s_batches s /\
+  s_hist s' = s_hist s.
 Lemma good_modify_untouched f : (forall s, untouched s (f s)) -> good (modify f).
 Proof.
-  intros Hf. apply good_modify. intros s H. destruct (Hf s) as [E1 [E2 [E3 [E4 [E5 E6]]]]].
+  intros Hf. apply good_modify. intros s H. destruct (Hf s) as [E1 [E2 [E3 [E4 [E5 [E6 E7]]]]]].
   split; [|rewrite E6; apply incl_refl].
-  destruct H. constructor; unfold avail in *; rewrite ?E1, ?E2, ?E3, ?E4, ?E5, ?E6; auto.
+  destruct H. constructor; unfold avail in *; rewrite ?E1, ?E2, ?E3, ?E4, ?E5, ?E6, ?E7; auto.
 Qed.
 Ltac untouched_tac := apply good_modify_untouched; intros; repeat split; reflexivity.
 
@@ -186,13 +191,35 @@ Section Avail.
     intros m b Hin. apply filter_In in Hin. eapply av_pw0. tauto.
   Qed.
 
-  Lemma good_make_vote b : good (make_vote me b).
+  (* computations that are well behaved provided block [b] is available (its payload is stored) *)
+  Definition goodb (b : Block) {A} (m : M A) : Prop :=
+    forall s, AvInv s -> avail s b ->
+      AvInv (st (m s)) /\ incl (s_batches s) (s_batches (st (m s))) /\
+      forall x, In (OCommit x) (outs (m s)) -> avail (st (m s)) x.
+  Lemma goodb_of_good b {A} (m : M A) : good m -> goodb b m.
+  Proof. intros G s H _. apply G. exact H. Qed.
+  Lemma goodb_bind b {A B} (m : M A) (f : A -> M B) : goodb b m -> (forall a, goodb b (f a)) -> goodb b (bind m f).
   Proof.
-    unfold make_vote, increase_last_voted. gunf. apply good_bind; [apply good_get|]. intros s.
-    apply good_bind.
-    { destruct (b_tc b); [|apply good_ret]. destruct (list_max _); [apply good_ret|apply good_panic]. }
-    intros r2. destruct (negb _); [apply good_ret|].
-    apply good_bind; [untouched_tac|]. intros _. apply good_bind; [untouched_tac|]. intros _. apply good_ret.
+    intros Hm Hf s H Hb. unfold bind. specialize (Hm s H Hb). destruct (m s) as [[s1 o1] r1]. unfold st, outs in *. simpl in *.
+    destruct Hm as [I1 [B1 C1]].
+    destruct r1 as [a|e|k]; simpl; auto.
+    specialize (Hf a s1 I1 (avail_mono _ _ _ B1 Hb)). destruct (f a s1) as [[s2 o2] r2]. unfold st, outs in *. simpl in *.
+    destruct Hf as [I2 [B2 C2]]. split; [exact I2|]. split; [eapply incl_tran; eauto|].
+    intros x Hx. apply in_app_or in Hx. destruct Hx as [Hx|Hx]; [eapply avail_mono; [exact B2|apply C1; exact Hx]|apply C2; exact Hx].
+  Qed.
+
+  (* the only place a vote is signed: the ghost history gains a vote for [b], whose payload is stored *)
+  Lemma goodb_make_vote b : goodb b (make_vote me b).
+  Proof.
+    unfold make_vote, increase_last_voted. gunf. apply goodb_bind; [apply goodb_of_good, good_get|]. intros s.
+    apply goodb_bind.
+    { apply goodb_of_good. destruct (b_tc b); [|apply good_ret]. destruct (list_max _); [apply good_ret|apply good_panic]. }
+    intros r2. destruct (negb _); [apply goodb_of_good, good_ret|].
+    apply goodb_bind; [apply goodb_of_good; untouched_tac|]. intros _.
+    apply goodb_bind; [|intros _; apply goodb_of_good, good_ret].
+    intros s0 H0 Hb. unfold modify, st, outs. simpl. split; [|split; [apply incl_refl|intros x []]].
+    destruct H0. constructor; simpl; auto.
+    intros d q j [E|Hin]; [|eapply av_hist0; eauto]. inversion E; subst. simpl. exact Hb.
   Qed.
 
   Lemma good_handle_vote hint v : good (handle_vote c me hint v).
@@ -218,7 +245,12 @@ Section Avail.
   Lemma good_local_timeout hint : good (local_timeout c me hint).
   Proof.
     unfold local_timeout, increase_last_voted. apply good_bind; [apply good_get|]. intros s.
-    apply good_bind; [untouched_tac|]. intros _. apply good_bind; [untouched_tac|]. intros _.
+    apply good_bind; [untouched_tac|]. intros _.
+    apply good_bind.
+    { (* the ghost history gains a timeout event: no vote is added *)
+      apply good_modify. intros s0 H0. split; [|apply incl_refl]. destruct H0. constructor; simpl; auto.
+      intros d q j [E|Hin]; [discriminate|eapply av_hist0; eauto]. }
+    intros _.
     apply good_bind; [apply good_emit; discriminate|]. intros _. apply good_handle_timeout.
   Qed.
   Lemma good_handle_tc hint tc : good (handle_tc c me hint tc).
@@ -252,6 +284,7 @@ Section Avail.
       destruct (N.eqb_spec x d) as [->|Hne]; [left; left; reflexivity|].
       right. apply filter_In. split; auto. apply negb_true_iff. apply N.eqb_neq. exact Hne.
     - intros x Hx. right. apply av_buf0. exact Hx.
+    - intros d0 q j Hin x Hx. right. eapply av_hist0; eauto.
   Qed.
 
   Lemma commit_walk_av lcr : forall fuel parent acc s,
@@ -386,11 +419,11 @@ Section Avail.
             | Some v => let nl := leader c (s_round s + 1) in if nl =? me then handle_vote c me hint v else emit (OVote nl v)
             | None => ret tt
             end)).
-    assert (R : forall s3, AvInv s3 -> avail s3 b0 ->
+    assert (R : forall s3, AvInv s3 -> avail s3 b0 -> avail s3 b ->
                 match rest tt s3 with
                 | (s', o, r) => AvInv s' /\ incl (s_batches s3) (s_batches s') /\ (forall x, In (OCommit x) o -> avail s' x)
                 end).
-    { intros s3 I3 H03. unfold rest. unfold bind at 1.
+    { intros s3 I3 H03 Hb3. unfold rest. unfold bind at 1.
       pose proof (good_proposer_cleanup (b_payload b0 ++ b_payload b1 ++ b_payload b) s3 I3) as P.
       destruct (proposer_cleanup _ s3) as [[s4 o4] r4]. unfold st, outs in P; simpl in P. destruct P as [I4 [B4 C4]].
       destruct r4 as [[]|e|k]; [|split; [exact I4|]; split; [exact B4|exact C4]|split; [exact I4|]; split; [exact B4|exact C4]].
@@ -415,22 +448,22 @@ Section Avail.
           + apply C6. exact Hx.
         - unfold ret. split; [exact I4|]. split; [apply incl_refl|intros x []]. }
       match type of Cm with match ?X with _ => _ end => destruct X as [[s7 o7] r7] end. destruct Cm as [I7 [B7 C7]].
-      assert (Tail : good (s <- get;;
+      assert (Tail : goodb b (s <- get;;
                           if negb (b_round b =? s_round s) then ret tt
                           else ov <- make_vote me b;;
                                match ov with
                                | Some v => let nl := leader c (s_round s + 1) in if nl =? me then handle_vote c me hint v else emit (OVote nl v)
                                | None => ret tt
                                end)).
-      { apply good_bind; [apply good_get|]. intros s'. destruct (negb _); [apply good_ret|].
-        apply good_bind; [apply good_make_vote|]. intros [v|]; [|apply good_ret].
-        cbv zeta. destruct (_ =? me); [apply good_handle_vote|apply good_emit; discriminate]. }
+      { apply goodb_bind; [apply goodb_of_good, good_get|]. intros s'. destruct (negb _); [apply goodb_of_good, good_ret|].
+        apply goodb_bind; [apply goodb_make_vote|]. intros [v|]; [|apply goodb_of_good, good_ret].
+        cbv zeta. apply goodb_of_good. destruct (_ =? me); [apply good_handle_vote|apply good_emit; discriminate]. }
       destruct r7 as [[]|e|k].
       2:{ split; [exact I7|]. split; [eapply incl_tran; eauto|]. intros x Hx. apply in_app_or in Hx.
           destruct Hx as [Hx|Hx]; [eapply avail_mono; [exact B7|apply C4; exact Hx]|apply C7; exact Hx]. }
       2:{ split; [exact I7|]. split; [eapply incl_tran; eauto|]. intros x Hx. apply in_app_or in Hx.
           destruct Hx as [Hx|Hx]; [eapply avail_mono; [exact B7|apply C4; exact Hx]|apply C7; exact Hx]. }
-      specialize (Tail s7 I7). 
+      specialize (Tail s7 I7 (avail_mono _ _ _ (incl_tran B4 B7) Hb3)).
       match goal with |- context [bind get ?F s7] => destruct (bind get F s7) as [[s8 o8] r8] end.
       unfold st, outs in Tail; simpl in Tail. destruct Tail as [I8 [B8 C8]].
       split; [exact I8|]. split; [eapply incl_tran; [exact B4|eapply incl_tran; eauto]|].
@@ -441,7 +474,8 @@ Section Avail.
     pose proof (good_store_block b s H Hb) as S.
     destruct (store_block b s) as [[s3 o3] r3]. destruct S as [I3 [B3 [-> ->]]].
     assert (H03 : avail s3 b0) by (intros d Hd; rewrite B3; apply Hb0; exact Hd).
-    specialize (R s3 I3 H03).
+    assert (Hb3 : avail s3 b) by (intros d Hd; rewrite B3; apply Hb; exact Hd).
+    specialize (R s3 I3 H03 Hb3).
     destruct (rest tt s3) as [[s9 o9] r9]. destruct R as [I9 [B9 C9]].
     split; [exact I9|]. split; [rewrite <- B3; exact B9|].
     intros x Hx. apply in_app_or in Hx. destruct Hx as [Hx|Hx]; [exfalso; eapply C1; eauto|].
